@@ -3,51 +3,32 @@ import os
 from checks import codec_common as cc
 from vlib.core import hx
 
-MODULES = []
-THEOREMS = []
-
-
-def corpus(c):
-    T = cc.TLS
-    s = [cc.Schema("cases", [T + "/cases.tl"], tl2="*", sanity=True, bytes_wl="cases_bytes."),
-         cc.Schema("casesns", [T + "/cases.tl"], tl2="", sanity=False)]
-    if c.thorough:
-        s += [cc.Schema("gold", [T + "/goldmaster.tl", T + "/goldmaster2.tl", T + "/goldmaster3.tl"], tl2="*", sanity=True, split=True)]
-    return s
+MODULES = ["TLVerif.Props.C01"]
+THEOREMS = ["TLVerif.Props.C01." + t for t in [
+    "tl1_roundtrip_partial_on", "tl1_roundtrip_partial", "tl1_roundtrip_partial_exists", "tl1_read_normal_on", "tl1_decode_stable_on",
+    "minSize_sound", "tl1_roundtrip_fails_with_sanity_at", "tl1_roundtrip_fails_without_normal_at",
+    "tl1_write_rejects_bad_sizes", "tl1_write_rejects_bad_sizes_never_bytes"]]
+SOURCES = ["TLVerif.Codec.TL1", "TLVerif.Codec.Val", "TLVerif.Codec.Desc", "TLVerif.Codec.TL1Wf", "TLVerif.Codec.TL1Lemmas",
+           "TLVerif.Codec.TL1Canon", "TLVerif.Codec.TL1RoundTrip", "TLVerif.Codec.TL1Normal", "TLVerif.Codec.TL1Example"]
+# known finding L4 (DESIGN §6): CheckLengthSanity(w, n, 4) assumes ≥ 4 bytes per element; arrays whose elements can
+# occupy 0 bytes are written but cannot be read back. Identified by call site; the predicate below is exact.
+L4_KEY = "L4:CheckLengthSanity-min-element-size-4:qt_brackets.qtpl/qt_dict.qtpl"
 
 
 def run(c):
-    if MODULES:
-        c.lean(MODULES, THEOREMS)
-    model = c.model_exe()
-    hcodec = c.harness("hcodec")
-    tl2gen = cc.build_tl2gen(c)
+    c.lean(MODULES, THEOREMS, sources=SOURCES)
+    model, hcodec, schemas = cc.prepare(c)
     rng = c.rng
-    per = 60 if c.thorough else 12
-    for sc in corpus(c):
-        d, err = cc.export_desc(c, hcodec, sc)
-        if d is None:
-            c.proof_failures.append({"stage": "descriptor export", "schema": sc.sid, "detail": err})
-            continue
-        ok, msg = cc.generate(c, tl2gen, sc)
-        if not ok:
-            c.proof_failures.append({"stage": "generate", "schema": sc.sid, "detail": msg})
-            continue
-        items = cc.link_items(sc)
-        g = cc.Gen1(sc, rng.fork(), big=c.thorough)
+    per = 60 if c.thorough else 10
+    for sc in schemas:
+        certs = cc.certificates(c, model, sc)
         lines = []
-        for inst, it in items:
-            for boxed in (0, 1):
-                if inst["kind"] == "union" and not boxed:
-                    continue
-                for _ in range(per):
-                    b = g.value(inst["idx"], not boxed, [], 0)
-                    rest = rng.bytes(rng.below(5)) if rng.chance(1, 3) else b""
-                    lines.append("codec.x1 %s %d %s %d %s" % (sc.sid, inst["idx"], inst["tlname"], boxed, hx(b + rest)))
-                    if rng.chance(1, 3):
-                        # without --checkLengthSanity an inflated count is a legitimate multi-GB allocation: only truncate there
-                        m = cc.mutate(rng, b) if sc.sanity else b[:rng.below(len(b) + 1)]
-                        lines.append("codec.x1 %s %d %s %d %s" % (sc.sid, inst["idx"], inst["tlname"], boxed, hx(m)))
+        if sc.sid == "zs":
+            idx = {i["tlname"]: i["idx"] for i, it in sc.items}
+            for name, hexs in [("tt.a", "03000000"), ("tt.b", "0200000007000000"), ("tt.c", "05000000")]:
+                # fixed witnesses of L4, transported with trailing bytes so that the reader accepts and phase 2 sees the written form
+                lines.append("codec.x1 zs %d %s 0 %s" % (idx[name], name, hexs + "00" * 24))
+        lines += cc.x1_lines(sc, rng, per, big=c.thorough, mutants=1)
         pre = [sc.desc_line()]
         res = c.tie("tl1:" + sc.sid, lines, sc.impl, model, prefix=pre)
         # phase 2: what the implementation wrote must read back exactly and re-encode identically (the property itself)
@@ -56,21 +37,24 @@ def run(c):
             if not a.startswith("ok "):
                 continue
             f = l.split(" ")
-            for p in a.split(" ")[2:]:
-                k, w = p.split("=", 1)
+            for k, w in cc.outputs(a).items():
                 if w == "werr":
                     c.oracle_fail(l, "value decoded from TL1 bytes is refused by the TL1 writer", l)
                 elif w != "n/a":
-                    l2 = "codec.x1 %s %s %s %d %s" % (f[1], f[2], f[3], 1 if k == "w1b" else 0, w + ("" if w == "-" else "") )
-                    lines2[l2] = (k, w)
+                    lines2["codec.x1 %s %s %s %d %s" % (f[1], f[2], f[3], 1 if k == "w1b" else 0, w)] = (k, w)
         l2s = sorted(lines2)
         res2 = c.tie("tl1-rt:" + sc.sid, l2s, sc.impl, model, prefix=pre)
         for l, a, _ in res2:
             k, w = lines2[l]
             n = 0 if w == "-" else len(w) // 2
-            exp = "ok %d" % n
-            if not a.startswith(exp + " ") or (k + "=" + w) not in a.split(" "):
-                c.oracle_fail(l, "TL1 round trip fails: bytes written by generated code do not read back exactly / re-encode identically (got %s)" % a[:120], l)
-    c.extra["rule"] = ("phase 1: type-directed valid TL1 encodings (+random rest) and single mutations per factory item × bare/boxed; "
-                       "phase 2: every encoding the implementation produced is read back and re-encoded (round-trip oracle); "
-                       "distinct = distinct case line")
+            if not a.startswith("ok %d " % n) or (k + "=" + w) not in a.split(" "):
+                ce = certs.get(int(l.split(" ")[2]), {})
+                if sc.sanity and a == "err eof" and not ce.get("min4", True):
+                    # exactly the L4 situation: guard of tl1_roundtrip_partial_on fails (min4 = false) and the reader reports EOF
+                    c.oracle_failures.append({"key": L4_KEY, "what": "L4", "input": l})
+                    c.count("known:L4")
+                else:
+                    c.oracle_fail(l, "TL1 round trip fails: bytes written by generated code do not read back exactly / re-encode identically (got %s)" % a[:120], l)
+    c.extra["rule"] = ("phase 1: type-directed valid TL1 encodings (+random rest) and single mutations per factory item × bare/boxed, plus fixed "
+                       "zero-size-element witnesses; phase 2: every encoding the implementation produced is read back and re-encoded "
+                       "(round-trip oracle); T3 certificates (wf, productive, roundtrip guard) evaluated per factory item; distinct = distinct case line")
